@@ -14,7 +14,8 @@ from .c14 import embed, roots_for_site
 from .c11 import outside_enum
 
 PROP = "C13"
-CUSTOM = {"string": ["verif/custom", ""], "integer": [12345, 0, -7], "uinteger": [12345, 0, 7]}
+CUSTOM = {"string": ["verif/custom", "", "UPPER.Case", "with space", "\u00fcn\u00ef\u2713", "x" * 300],
+          "integer": [12345, 0, -7, -(2**31), 2**31 - 1], "uinteger": [12345, 0, 7, 2**31 - 1]}
 
 
 def enum_sites(mm):
